@@ -47,6 +47,9 @@ func (o *outcome) findings() []finding {
 		}
 		return []finding{{Kind: "process-crash", Detail: o.Crash.Kind + "|" + o.Crash.Site}}
 	}
+	if o.Res.FlushPanic != "" { // caught on the harness goroutine; same class key as a real death
+		return []finding{{Kind: "process-crash", Detail: o.Res.FlushPanic}}
+	}
 	return o.Res.Findings
 }
 
@@ -54,7 +57,7 @@ var scratch string
 var spawnSeq atomic.Int64
 
 // runChunk executes jobs in worker subprocesses, restarting after the job that killed a worker.
-func runChunk(jobs []job) []outcome {
+func runChunk(jobs []job, extraEnv ...string) []outcome {
 	exe, err := os.Executable()
 	if err != nil {
 		ev.Unbound(err.Error())
@@ -73,6 +76,7 @@ func runChunk(jobs []job) []outcome {
 		cmd := exec.Command(exe)
 		cmd.Env = append(os.Environ(), "VERIF_C04_WORKER=1", "VERIF_C04_JOBS="+base+".jobs", "VERIF_C04_OUT="+base+".out",
 			"VERIF_C04_ERRF="+base+".err", "GOTRACEBACK=all", "GOMAXPROCS=2")
+		cmd.Env = append(cmd.Env, extraEnv...)
 		cmd.Stderr = ef
 		cmd.Stdout = ef
 		werr := cmd.Run()
@@ -242,7 +246,7 @@ func (x *explorer) execute(mode string, seqs [][]int) {
 		x.nextID++
 	}
 	x.total += len(jobs)
-	const chunk = 64
+	const chunk = 128
 	var chunks [][]job
 	for i := 0; i < len(jobs); i += chunk {
 		chunks = append(chunks, jobs[i:min(i+chunk, len(jobs))])
@@ -427,7 +431,7 @@ func main() {
 
 	// ---- collect, classify, minimise by lookup in the exhaustive result table ----
 	byKey := x.byKey
-	evaluated, crashed, recoveredJobs, mergedJobs := 0, 0, 0, 0
+	evaluated, crashed, recoveredJobs, mergedJobs, flushPanics := 0, 0, 0, 0, 0
 	statusHist := map[string]int{}
 	outcomes := map[string]bool{}
 	nontrivial := 0
@@ -448,6 +452,10 @@ func main() {
 			continue
 		}
 		outcomes[o.Res.Outcome] = true
+		if o.Res.FlushPanic != "" {
+			flushPanics++
+			nontrivial++
+		}
 		for p, st := range o.Res.Status {
 			statusHist[fmt.Sprintf("%s:%d", strings.SplitN(A[o.Job.Seq[p]].Name, ":", 2)[0], st)]++
 		}
@@ -475,11 +483,12 @@ func main() {
 		}
 	}
 	type class struct {
-		sig   string
-		f     finding
-		rep   *outcome
-		modes map[string]bool
-		n     int
+		sig       string
+		f         finding
+		rep       *outcome
+		modes     map[string]bool
+		n         int
+		realDeath *crashInfo
 	}
 	classes := map[string]*class{}
 	raw := 0
@@ -557,7 +566,14 @@ func main() {
 			sem <- struct{}{}
 			defer func() { <-sem }()
 			for k := 0; k < 2; k++ {
-				o := runChunk([]job{{ID: 0, Mode: c.rep.Job.Mode, Seq: c.rep.Job.Seq}})[0]
+				// isolated, and without the harness-side recover: a process-crash class must be a real death
+				o := runChunk([]job{{ID: 0, Mode: c.rep.Job.Mode, Seq: c.rep.Job.Seq}}, "VERIF_C04_NORECOVER=1")[0]
+				if c.f.Kind == "process-crash" && o.Crash == nil {
+					nondet.Store(fmt.Sprintf("class %q: the worker process did not die in isolated replay %d", c.sig, k+1))
+				}
+				if o.Crash != nil && c.rep.Crash == nil {
+					c.realDeath = o.Crash
+				}
 				ok := false
 				for _, f := range o.findings() {
 					if f.key() == c.f.key() {
@@ -588,10 +604,14 @@ func main() {
 			ro.Reqs = append(ro.Reqs, replayAtom{Name: A[ai].Name, Path: A[ai].Path, Headers: A[ai].Hdr, BodyB64: b64cap(A[ai].Body(p))})
 		}
 		desc := ""
-		if c.rep.Crash != nil {
-			ro.Trace = c.rep.Crash.Trace
+		crash := c.rep.Crash
+		if crash == nil {
+			crash = c.realDeath
+		}
+		if crash != nil {
+			ro.Trace = crash.Trace
 			desc = fmt.Sprintf("worker process died (%s) with `%s` at %s after the request sequence [%s] (max_buffer_size=%d, modes %v)",
-				c.rep.Crash.Exit, c.rep.Crash.Kind, c.rep.Crash.Site, seqNames(A, c.rep.Job.Seq), ro.MaxBuf, modes)
+				crash.Exit, crash.Kind, crash.Site, seqNames(A, c.rep.Job.Seq), ro.MaxBuf, modes)
 		} else {
 			ro.Status = c.rep.Res.Status
 			desc = fmt.Sprintf("%s for request %q %s %s in sequence [%s] statuses %v (modes %v)", c.f.Kind, c.f.Subject, c.f.Detail, c.f.Info,
@@ -637,6 +657,7 @@ func main() {
 	run.Coverage["merge_alphabet_validated"] = mergeValidated
 	run.Coverage["max_len"] = map[bool]int{true: 2, false: 3}[run.Quick()]
 	run.Coverage["worker_process_deaths"] = crashed
+	run.Coverage["end_of_sequence_flush_panics_caught_on_harness_goroutine"] = flushPanics
 	run.Coverage["sequences_with_recovered_handler_panic"] = recoveredJobs
 	run.Coverage["sequences_with_cross_request_merge"] = mergedJobs
 	run.Coverage["status_histogram"] = statusHist
@@ -647,12 +668,12 @@ func main() {
 		sm = append(sm, map[string]any{"sequence": A[all[0]].Name, "mode": "final"})
 	}
 	run.Coverage["samples"] = sm
-	run.Assume("storage is hx.MemBackend (never fails); the explicit FlushAll+Close after each sequence stands in for the age-triggered background flush (periodicFlush -> flushAgedBuffers, same flushBufferLocked, no recover) and for shutdown")
+	run.Assume("storage is hx.MemBackend (never fails); the explicit FlushAll+Close after each sequence stands in for the age-triggered background flush (periodicFlush -> flushAgedBuffers, same flushBufferLocked, no recover) and for shutdown; during the bulk enumeration a panic of that explicit flush is caught on the harness goroutine and counted as a process death (the asynchronous flush worker's panics do kill the worker process), and every resulting class is then re-run twice in isolation WITHOUT that catch and must really kill the worker process with the same panic and site")
 	run.Assume("a panic recovered by the production fiber recover middleware (HTTP 500) is counted but is a violation only through its consequences (acknowledged rows of earlier requests lost)")
 	run.Assume("auth/RBAC off, no WAL, no cluster router; request atoms are the listed alphabet, bodies <= 4 MiB (+1), payload cap of the in-process server 4 MiB; the fixed 100 MB / 500 MB caps of line-protocol, TLE and import decompression are not driven to their limit")
 	run.Assume("only time-attributable rows are compared value by value; rows with server-generated or format-derived times (TLE epoch) are judged by count")
-	fmt.Printf("C04 %s: alphabet=%d sequences=%d evaluated=%d process_deaths=%d recovered_handler_panics=%d merged=%d distinct_outcomes=%d raw_findings=%d classes=%d\n",
-		run.Tier, len(all), enumerated, evaluated, crashed, recoveredJobs, mergedJobs, len(outcomes), raw, len(sigs))
+	fmt.Printf("C04 %s: alphabet=%d sequences=%d evaluated=%d process_deaths=%d flush_panics=%d recovered_handler_panics=%d merged=%d distinct_outcomes=%d raw_findings=%d classes=%d\n",
+		run.Tier, len(all), enumerated, evaluated, crashed, flushPanics, recoveredJobs, mergedJobs, len(outcomes), raw, len(sigs))
 	os.RemoveAll(scratch)
 	run.Finish()
 }
